@@ -246,6 +246,14 @@ def check(plan, r):
     st("mutex_blocked", res.get("mutex_blocked", 0) if "mutex_blocked" in res else 0)
     st("mutex_locks", res.get("mutex_locks", 0))
     racy_run = (stratum == "logout_private")
+    def annotate(v, ref, attrs):
+        """two facts that identify the known defaulting race (KF-C18-DEFAULT-RACE): the wrong value is the attribute's DEFAULT, and some other thread looked at
+        objects (search or attribute read, which wrap every object in a P11Object and fill in missing defaults) while the creating call was still running"""
+        c = create.get(ref)
+        t_ = K.C.get(v.get("attr"))
+        a = attrs.get(str(t_)) if t_ is not None else None
+        v["value_is_default"] = bool(a is not None and "v" in a and (a["v"] == "" or set(a["v"]) <= {"0"}))
+        v["created_under_observation"] = bool(c is not None and any(o.tid != c.tid and o.f in ("@find", "@readout", "@readattrs") and o.inv < c.retn and c.inv < o.retn for o in evs))
     w = World()
     restarted = False
     import hashlib
@@ -319,12 +327,12 @@ def check(plan, r):
                     ref = ent.get("ref")
                     if ref and ref in create:
                         for v in c15.check_values(e, ref, oj["attrs"], candidates, where, policy, st, create, {}):
-                            v["class"] = v["class"].replace("C15.", "C18."); viols.append(v)
+                            v["class"] = v["class"].replace("C15.", "C18."); annotate(v, ref, oj["attrs"]); viols.append(v)
         elif e.f == "@readattrs" and isinstance(e.op.get("o"), str) and e.op["o"] in create and not racy_run and not e.op.get("racy"):
             ref = e.op["o"]
             if not destroy_started_before(ref, e.retn) and any(rr == ref for rr in P.h2obj.values()):
                 for v in c15.check_values(e, ref, e.ret.get("attrs", {}), candidates, "run", policy, st, create, {}):
-                    v["class"] = v["class"].replace("C15.", "C18."); viols.append(v)
+                    v["class"] = v["class"].replace("C15.", "C18."); annotate(v, ref, e.ret.get("attrs", {})); viols.append(v)
         w.apply(1, e.op, e.ret)
     tr = res.get("trace", [])
     sched = hashlib.sha256(repr([(d[0], d[3]) for d in tr]).encode()).hexdigest()[:12]
